@@ -253,6 +253,8 @@ for _p in ("C01", "C06", "C14"):
                                  "temperatures and the temperature difference dt_cont - no additive constant may be applied to the extracted value.")
 CLAIMED["C07"]["technique"] += (" COL-CACHE: an `if` never decides from the contents of column K whether the routine that must-writes K runs "
                                  "(must-write summaries with column parameters resolved per call).")
+for _p in CLAIMED:
+    CLAIMED[_p]["technique"] += " ZERO-CMP: syntax-tree scan of the anchored modules - no absolute temperature (scalar, array, table column) is compared with the literal 0."
 CLAIMED["C10"]["technique"] += " DEDUP-ID: taint of input stream records into every keep-one-per-key construct (identity keys only)."
 
 NOT_APPLICABLE = {
